@@ -848,3 +848,57 @@ def z_r9_no_value_memo(p: Project, rep: Report):
                 break
         rep.check("Z-R9", f"{label}:no-run-time-table", bad is None, f"reads the module-level container {bad[0]}, which {p.module(bad[1]).relpath}:{bad[2].lineno} fills at run time ({text(bad[2])[:50]}): the result for one value depends on which values were converted before it - entries made for one zone answer for every zone that shares the key" if bad else "", tloc(p, fn0))
     rep.unit("date_routines_checked_for_memo_tables", n)
+
+
+def z_r5b_sign_of_zero_hours(p: Project, rep: Report):
+    """[-0.30]: the hours field is zero, the sign lives in the TEXT only"""
+    from .flat import flat
+
+    rep.rule("Z-R5b", "the sign of an offset survives an hours field of zero ([-0.30], which the library itself writes for offsets between -1:00 and 0): int('-0') == 0 has no sign, so where the hours text goes through int() the result must also depend on a test of the text's sign character ('-' prefix); a float() conversion keeps it (-0.0) only if the sign is then taken by copysign")
+    ci = p.get_class(TYPES, "DateTime")
+    fn0 = None
+    for name, (kind, f_) in ci.attrs.items():
+        if kind == "func" and any(isinstance(c, ast.Call) and (dotted(c.func) or "").split(".")[-1] == "gmt_offset" for c in ast.walk(f_)) and len(f_.args.args) >= 3:
+            fn0 = f_
+    if fn0 is None:
+        rep.note("Z-R5b undecided: no method of DateTime hands the offset fields to gmt_offset()")
+        return
+    fn = flat(p, TYPES, fn0, ci)
+    params = [a.arg for a in fn0.args.args][1:]
+    # the conversion of a text parameter whose result is the hours argument of gmt_offset()
+    conv = None
+    for c in ast.walk(fn):
+        if isinstance(c, ast.Call) and isinstance(c.func, ast.Name) and c.func.id in ("int", "float") and c.args:
+            used = [x.id for x in ast.walk(c.args[0]) if isinstance(x, ast.Name) and x.id in params]
+            if used and used[0] == params[0]:
+                conv = conv or (c.func.id, used[0], c)
+    if conv is None:
+        rep.note(f"Z-R5b undecided: {fn0.name} converts its hours text neither with int() nor with float()")
+        return
+    kind, P, call = conv
+    where = f"{p.module(TYPES).relpath}:{call.lineno}"
+    if kind == "float":
+        g = p.get_function("ofxtools.utils", "gmt_offset").node
+        gp = params_of(g)
+        cs = [c for c in ast.walk(g) if isinstance(c, ast.Call) and (dotted(c.func) or "").split(".")[-1] == "copysign" and len(c.args) == 2 and any(isinstance(x, ast.Name) and x.id == gp[0] for x in ast.walk(c.args[1]))]
+        if cs:
+            rep.check("Z-R5b", f"{fn0.name}:sign-of-zero-hours", True, "float() keeps -0.0 and gmt_offset takes the sign by copysign", where)
+        else:
+            rep.note("Z-R5b undecided: hours converted by float() but gmt_offset does not take the sign by copysign")
+        return
+
+    def mentions(e):
+        return any(isinstance(x, ast.Name) and x.id == P for x in ast.walk(e))
+
+    def has_minus(e):
+        return any(isinstance(x, ast.Constant) and isinstance(x.value, str) and "-" in x.value for x in ast.walk(e))
+
+    tested = None
+    for x in ast.walk(fn):
+        if isinstance(x, ast.Call) and isinstance(x.func, ast.Attribute) and x.func.attr in ("startswith", "count", "find", "index", "partition", "rpartition") and mentions(x.func.value) and any(has_minus(a) for a in x.args):
+            tested = x
+        elif isinstance(x, ast.Compare) and (mentions(x.left) or any(mentions(c_) for c_ in x.comparators)) and (has_minus(x.left) or any(has_minus(c_) for c_ in x.comparators)):
+            tested = x
+        elif isinstance(x, ast.Call) and (dotted(x.func) or "").split(".")[-1] in ("match", "search", "fullmatch") and any(mentions(a) for a in x.args) and any(has_minus(a) for a in x.args):
+            tested = x
+    rep.check("Z-R5b", f"{fn0.name}:sign-of-zero-hours", tested is not None, f"the hours text goes through {text(call)[:30]} and nothing else looks at its sign character: '-0' becomes 0, so [-0.30] - the notation the library itself writes for an offset of minus thirty minutes - is read as +0:30, one hour off" if tested is None else "", where)
